@@ -40,21 +40,84 @@ fn install_fs_hook() {
 }
 
 #[derive(Clone, Debug)]
-pub struct History { name: &'static str, pre: Vec<SrvOp>, change: Vec<SrvOp>, mode: Mode }
+pub struct History {
+    name: &'static str,
+    /// each phase: server steps followed by one faithful, uninterrupted update
+    pre: Vec<Vec<SrvOp>>,
+    change: Vec<SrvOp>,
+    mode: Mode,
+    /// objects 2 and 3 get names sharing the archive bucket of object 0
+    collide: bool,
+}
 
 pub fn histories() -> Vec<History> {
     use SrvOp::*;
+    let h = |name, pre: Vec<SrvOp>, change, mode| History { name, pre: if pre.is_empty() { vec![] } else { vec![pre] }, change, mode, collide: false };
+    let c = |name, pre, change| History { name, pre, change, mode: Mode::Faithful, collide: true };
     vec![
-        History { name: "first-snapshot", pre: vec![], change: vec![Set(0, Some(0)), Set(1, Some(1))], mode: Mode::Faithful },
-        History { name: "one-delta-publish", pre: vec![Set(0, Some(0))], change: vec![Set(1, Some(1))], mode: Mode::Faithful },
-        History { name: "one-delta-replace", pre: vec![Set(0, Some(0)), Set(1, Some(0))], change: vec![Set(0, Some(1))], mode: Mode::Faithful },
-        History { name: "one-delta-withdraw", pre: vec![Set(0, Some(0)), Set(1, Some(0))], change: vec![Set(1, None)], mode: Mode::Faithful },
-        History { name: "two-deltas", pre: vec![Set(0, Some(0)), Set(1, Some(1))], change: vec![Set(0, Some(1)), Set(1, None)], mode: Mode::Faithful },
-        History { name: "three-deltas", pre: vec![Set(0, Some(0))], change: vec![Set(1, Some(0)), Set(0, None), Set(0, Some(1))], mode: Mode::Faithful },
-        History { name: "new-session-snapshot", pre: vec![Set(0, Some(0)), Set(1, Some(0))], change: vec![Set(0, Some(1)), NewSession], mode: Mode::Faithful },
-        History { name: "not-modified", pre: vec![Set(0, Some(0))], change: vec![], mode: Mode::Faithful },
-        History { name: "failing-delta-then-snapshot", pre: vec![Set(0, Some(0))], change: vec![Set(1, Some(1))], mode: Mode::DeltaWrongHash(true) },
+        h("first-snapshot", vec![], vec![Set(0, Some(0)), Set(1, Some(1))], Mode::Faithful),
+        h("one-delta-publish", vec![Set(0, Some(0))], vec![Set(1, Some(1))], Mode::Faithful),
+        h("one-delta-replace", vec![Set(0, Some(0)), Set(1, Some(0))], vec![Set(0, Some(1))], Mode::Faithful),
+        h("one-delta-withdraw", vec![Set(0, Some(0)), Set(1, Some(0))], vec![Set(1, None)], Mode::Faithful),
+        h("two-deltas", vec![Set(0, Some(0)), Set(1, Some(1))], vec![Set(0, Some(1)), Set(1, None)], Mode::Faithful),
+        h("three-deltas", vec![Set(0, Some(0))], vec![Set(1, Some(0)), Set(0, None), Set(0, Some(1))], Mode::Faithful),
+        h("new-session-snapshot", vec![Set(0, Some(0)), Set(1, Some(0))], vec![Set(0, Some(1)), NewSession], Mode::Faithful),
+        h("not-modified", vec![Set(0, Some(0))], vec![], Mode::Faithful),
+        h("failing-delta-then-snapshot", vec![Set(0, Some(0))], vec![Set(1, Some(1))], Mode::DeltaWrongHash(true)),
+        // Shared buckets and reused space: objects 2 and 3 hash into the
+        // bucket of object 0; object 1 sits between object 0 and the state
+        // record, so withdrawing it leaves a hole inside the file.
+        c("colliding-publish-appended", vec![vec![Set(0, Some(0)), Set(1, Some(0))]], vec![Set(2, Some(1))]),
+        c("colliding-publish-into-hole", vec![vec![Set(0, Some(0)), Set(1, Some(0))], vec![Set(1, None)]], vec![Set(2, Some(1))]),
+        c("withdraw-then-colliding-publish", vec![vec![Set(0, Some(0)), Set(1, Some(0))]], vec![Set(1, None), Set(2, Some(1))]),
+        c("colliding-publish-into-larger-hole", vec![vec![Set(0, Some(0)), Set(1, Some(2))], vec![Set(1, None)]], vec![Set(2, Some(1)), Set(3, Some(0))]),
+        c("colliding-withdraw-head", vec![vec![Set(0, Some(0)), Set(1, Some(0))], vec![Set(2, Some(1))]], vec![Set(2, None)]),
+        c("colliding-withdraw-tail", vec![vec![Set(0, Some(0)), Set(1, Some(0))], vec![Set(2, Some(1))]], vec![Set(0, None)]),
+        c("colliding-withdraw-middle", vec![vec![Set(0, Some(0)), Set(1, Some(0))], vec![Set(2, Some(1))], vec![Set(3, Some(1))]], vec![Set(2, None), Set(1, None)]),
+        c("colliding-replace-grows", vec![vec![Set(0, Some(0)), Set(1, Some(0))], vec![Set(2, Some(1))]], vec![Set(0, Some(2))]),
+        c("colliding-replace-shrinks-into-hole", vec![vec![Set(0, Some(2)), Set(1, Some(2))], vec![Set(2, Some(1)), Set(1, None)]], vec![Set(0, Some(0)), Set(3, Some(0))]),
     ]
+}
+
+/// Names for objects 2 and 3 that the archive at `path` puts into the
+/// bucket of object 0 (read from the file: the key is random per archive).
+fn resolve_colliders(path: &Path) -> Result<(), (String, String)> {
+    use std::hash::Hasher;
+    let bytes = std::fs::read(path).map_err(|e| ("harness".to_string(), format!("no archive to read the hash key from: {e}")))?;
+    if bytes.len() < 6 + 16 + 8 { return Err(("harness".into(), "archive too short".into())) }
+    let key: [u8; 16] = bytes[6..22].try_into().unwrap();
+    let buckets = usize::from_ne_bytes(bytes[22..30].try_into().unwrap()) as u64;
+    let bucket = |name: &str| {
+        let mut h = siphasher::sip::SipHasher24::new_with_key(&key);
+        h.write(name.as_bytes());
+        h.finish() % buckets
+    };
+    let want = bucket(&obj_uri(0));
+    let found: Vec<String> = (0..200_000).map(c25::candidate_uri).filter(|c| bucket(c) == want).take(2).collect();
+    if found.len() < 2 { return Err(("harness".into(), "no colliding names found".into())) }
+    c25::NAME_OVERRIDE.with(|n| {
+        let mut n = n.borrow_mut();
+        n.insert(2, found[0].clone());
+        n.insert(3, found[1].clone());
+    });
+    Ok(())
+}
+
+/// Independent look into the file: do the named objects really share a chain?
+fn chain_len_of_object0(path: &Path) -> usize {
+    use std::hash::Hasher;
+    let Ok(b) = std::fs::read(path) else { return 0 };
+    if b.len() < 30 { return 0 }
+    let key: [u8; 16] = b[6..22].try_into().unwrap();
+    let buckets = usize::from_ne_bytes(b[22..30].try_into().unwrap()) as u64;
+    let mut h = siphasher::sip::SipHasher24::new_with_key(&key);
+    h.write(obj_uri(0).as_bytes());
+    let bucket = (h.finish() % buckets) as usize;
+    let at = |p: usize| b.get(p..p + 8).map(|x| u64::from_ne_bytes(x.try_into().unwrap())).unwrap_or(0);
+    let mut pos = at(30 + bucket * 8);
+    let mut n = 0;
+    while pos != 0 && n < 100 { n += 1; pos = at(pos as usize + 8); }
+    n
 }
 
 #[derive(Clone, Copy, Debug)]
@@ -67,15 +130,23 @@ fn run_history(
 ) -> Result<(usize, Vec<(usize, &'static str, String, Result<String, (String, String)>)>), (String, String)> {
     install_fs_hook();
     c25::FATAL_IS_OUTCOME.with(|f| f.set(true));
+    c25::NAME_OVERRIDE.with(|n| n.borrow_mut().clear());
     let (mut server, mut truth) = new_server();
-    for op in &h.pre { apply_srv(&mut server, &mut truth, *op); }
     // the local copy before the interrupted update
     w.install(&None);
     let mut pre_archive = None;
-    if !h.pre.is_empty() {
+    for (i, phase) in h.pre.iter().enumerate() {
+        for op in phase { apply_srv(&mut server, &mut truth, *op); }
+        w.install(&pre_archive);
         let o = client_update(w, &server, &truth, Mode::Faithful)?;
-        if o.result != "updated" { return Err(("harness".into(), format!("{}: preparing update gave {}", h.name, o.result))) }
+        if o.result != "updated" { return Err(("harness".into(), format!("{}: preparing update {i} gave {}", h.name, o.result))) }
         pre_archive = w.read_back();
+        if i == 0 && h.collide { resolve_colliders(&w.path)?; }
+    }
+    if h.collide && h.pre.len() > 1 && h.pre[1..].iter().flatten().any(|op| matches!(op, SrvOp::Set(2 | 3, Some(_)))) {
+        if chain_len_of_object0(&w.path) < 2 {
+            return Err(("harness".into(), format!("{}: the colliding names do not share a chain", h.name)))
+        }
     }
     for op in &h.change { apply_srv(&mut server, &mut truth, *op); }
     // the update that gets interrupted: record a crash state at every step
@@ -136,7 +207,13 @@ pub fn run(ctx: &Ctx) -> Report {
     rep.rule = "real RRDP updates (first snapshot; one delta publishing / \
         replacing / withdrawing; two and three deltas in one update; \
         snapshot of a new session replacing an existing archive; Not \
-        Modified; a delta failing its hash check followed by the snapshot) \
+        Modified; a delta failing its hash check followed by the snapshot; \
+        and nine histories in which further objects are given names that \
+        the archive's keyed hash puts into the bucket of an existing \
+        object - publishing them at the end of the file, into the hole a \
+        withdrawn object left, into a larger hole, withdrawing the head / \
+        middle / tail of a shared chain, replacing a chained object by a \
+        larger / smaller one) \
         with a crash state captured before every storage step of the \
         archive code (each write into the memory map or file, set_len, \
         snapshot finalisation, removal of the old archive, rename of the \
